@@ -37,7 +37,14 @@ func init() { register("C12", runC12) }
 //	  mode s: scripted notification.WebhookTargetClient injected into the real WebhooksService
 //	  mode p: the PRODUCTION client (transports/http/client) posting to an httptest server
 //	ops:  R<u>:<b|B|c|n>:<h>:<t>   POST /api/v1/webhook  url u (0..3), auth kind bearer ("bearer")/bearer ("BeArEr")/
-//	                                custom header X-H<h>/none, token tok<t>
+//	                                custom header name <h>/none, token value <t>:
+//	                                h: 0..2 = X-H<h>, 3 = Authorization, 4 = authorization, 5 = AUTHORIZATION (a custom
+//	                                header may well be the Authorization header with another scheme; 4, 5 only with the
+//	                                scripted client - the wire does not carry the letter case of a header name)
+//	                                t: 0..3 = tok<t>, 4 = "Basic dXNlcjpwYXNz", 5 = "ApiKey k-1", 6 = "Bearer xyz",
+//	                                7 = "" (custom header only).  The target must receive exactly the header of the
+//	                                registration with exactly its value (bearer: Authorization: Bearer <token>; custom:
+//	                                the value verbatim whatever the header is called) and no other credential header.
 //	      D<u>                      DELETE /api/v1/webhook?url=
 //	      N<o0><o1><o2><o3>         WebhooksService.Notify(event) with the outcome of the call to url i:
 //	                                k=200 c=201 n=404 s=503 t=transport error b=unreadable body (status 200)
@@ -692,6 +699,37 @@ func c12Guard(d time.Duration, f func() any, late func(any)) (v any, ok bool) {
 	}
 }
 
+// c12HdrName / c12TokVal: the header name and token value the ids of a registration stand for.
+func c12HdrName(h string, mode string) (string, bool) {
+	switch h {
+	case "0", "1", "2":
+		return "X-H" + h, true
+	case "3":
+		return "Authorization", true
+	case "4":
+		return "authorization", mode == "s"
+	case "5":
+		return "AUTHORIZATION", mode == "s"
+	}
+	return "", false
+}
+
+func c12TokVal(t string) (string, bool) {
+	switch t {
+	case "0", "1", "2", "3":
+		return "tok" + t, true
+	case "4":
+		return "Basic dXNlcjpwYXNz", true
+	case "5":
+		return "ApiKey k-1", true
+	case "6":
+		return "Bearer xyz", true
+	case "7":
+		return "", true
+	}
+	return "", false
+}
+
 // c12Step performs one op (and the GETs after it) on the snapshot r; a restart replaces r.s, an event appends to r.wins.
 func c12Step(r *c12Run, op string, idx int) (res string) {
 	w := r.w
@@ -707,13 +745,18 @@ func c12Step(r *c12Run, op string, idx int) (res string) {
 			return "BAD-OP||"
 		}
 		req := map[string]any{"url": w.urlOf(u)}
+		hn, okH := c12HdrName(f[2], w.mode)
+		tv, okT := c12TokVal(f[3])
+		if !okH || !okT || (f[1] != "c" && f[3] == "7") {
+			return "BAD-OP||"
+		}
 		switch f[1] {
 		case "b":
-			req["requiredAuth"] = map[string]string{"type": "bearer", "token": "tok" + f[3]}
+			req["requiredAuth"] = map[string]string{"type": "bearer", "token": tv}
 		case "B":
-			req["requiredAuth"] = map[string]string{"type": "BeArEr", "token": "tok" + f[3], "header": "X-H" + f[2]}
+			req["requiredAuth"] = map[string]string{"type": "BeArEr", "token": tv, "header": hn}
 		case "c":
-			req["requiredAuth"] = map[string]string{"type": "custom_header", "token": "tok" + f[3], "header": "X-H" + f[2]}
+			req["requiredAuth"] = map[string]string{"type": "custom_header", "token": tv, "header": hn}
 		case "n":
 		default:
 			return "BAD-OP||"
@@ -802,7 +845,7 @@ func c12Step(r *c12Run, op string, idx int) (res string) {
 	return resp + "|" + posts + "|" + r.gets()
 }
 
-func c12GenOps(c *Ctx, n int, mt int) []string {
+func c12GenOps(c *Ctx, n int, mt int, prodClient bool) []string {
 	rng := c.Rng
 	var ops []string
 	outs := "kkkkkcnsstttb"
@@ -817,7 +860,20 @@ func c12GenOps(c *Ctx, n int, mt int) []string {
 			if rng.Intn(3) == 0 {
 				k = 'n'
 			}
-			ops = append(ops, fmt.Sprintf("R%d:%c:%d:%d", rng.Intn(c12NU), k, rng.Intn(3), rng.Intn(4)))
+			h, t := rng.Intn(3), rng.Intn(4)
+			if rng.Intn(3) == 0 { // the Authorization header as a custom header, other schemes, an empty value
+				h = 3 + rng.Intn(3)
+				if prodClient && h > 3 {
+					h = 3
+				}
+			}
+			if rng.Intn(3) == 0 {
+				t = 4 + rng.Intn(4)
+				if k != 'c' && t == 7 {
+					t = 6
+				}
+			}
+			ops = append(ops, fmt.Sprintf("R%d:%c:%d:%d", rng.Intn(c12NU), k, h, t))
 		case x < 30:
 			ops = append(ops, fmt.Sprintf("D%d", rng.Intn(c12NU)))
 		case x < 36:
@@ -939,6 +995,20 @@ func runC12(c *Ctx) error {
 		do(fmt.Sprintf("mt=5 mode=%s;R0:b:0:1;R1:c:1:2;R2:n:0:0;R3:b:0:3;Nssss;Nnncc;Nkkkk;Nscns;Nkkkk;Nkkkk;Z;Nnnnn;Nkkkk", mode), "systematic-non200-bodies")
 		do(fmt.Sprintf("mt=5 mode=%s;R0:b:0:1;Nskkk;Nnkkk;Nckkk;Nskkk;Nkkkk;Nkkkk;Nskkk;Nkkkk", mode), "systematic-non200-bodies")
 	}
+	// systematic: what the target RECEIVES for every registration shape: bearer / BeArEr with plain and scheme-like tokens,
+	// custom headers X-H<n> and Authorization (in three letter cases with the scripted client) with raw, Basic, ApiKey,
+	// Bearer-prefixed and empty values, no authorisation; side by side, after a restart, after re-registration
+	for _, mode := range []string{"s", "p"} {
+		hs := []int{0, 3, 4, 5}
+		if mode == "p" {
+			hs = []int{0, 3}
+		}
+		for _, h := range hs {
+			for t := 0; t <= 7; t++ {
+				do(fmt.Sprintf("mt=2 mode=%s;R0:c:%d:%d;R1:b:0:%d;R2:n:0:0;R3:B:%d:%d;Nkkkk;Z;Nskkk;Nskkk;R0:c:3:1;R0:b:0:2;Nkkkk", mode, h, t, t%7, h, (t+3)%7), "systematic-auth-shapes")
+			}
+		}
+	}
 	// systematic: a restart CHANGES webhook.max_tries, in both directions, with failing streaks that straddle it and
 	// webhooks registered before (u0, u1) and after (u2) it; the limit in force after the restart is the only one that counts
 	rot := 0
@@ -987,7 +1057,7 @@ func runC12(c *Ctx) error {
 			upTok = fmt.Sprintf(" up=%d", up)
 		}
 		l := 4 + c.Rng.Intn(c.Pick(22, 40))
-		ops := c12GenOps(c, l, mt)
+		ops := c12GenOps(c, l, mt, mode == "p")
 		ops = append(ops, "Z")
 		do(fmt.Sprintf("mt=%d mode=%s%s;", mt, mode, upTok)+strings.Join(ops, ";"), "random:"+mode)
 	}
